@@ -1,32 +1,13 @@
 //! Dispatch to the real code under test: one entry per shipped struct and per
 //! reply enum.  Everything here calls only public API of /repo's crates.
 
-use std::cell::RefCell;
 use std::fmt::Debug;
+pub use refcodec::engine::{guarded, install_panic_hook, panic_signature, Outcome};
 use zvt::feig::packets as fp;
 use zvt::feig::sequences as fs;
 use zvt::packets as p;
 use zvt::sequences as s;
 use zvt::{encoding, ZvtParser, ZvtSerializer};
-
-#[derive(Clone, Debug, PartialEq)]
-pub enum Outcome {
-    Ok {
-        debug: String,
-        /// length of the remainder handed back
-        rest: usize,
-        /// re-serialisation of the decoded value
-        reenc: Vec<u8>,
-        /// decode(reenc) == value (type's own PartialEq) and no remainder
-        re_eq: bool,
-        re_rest: usize,
-        re_err: Option<String>,
-        /// Debug of decode(reenc)
-        re_debug: String,
-    },
-    Err(String),
-    Panic(String),
-}
 
 fn run<T>(bytes: &[u8]) -> Outcome
 where
@@ -195,42 +176,6 @@ pub fn parse_enum_raw(key: &str, bytes: &[u8]) -> Result<String, String> {
     }
 }
 
-// ---------------------------------------------------------------- panic capture
-
-thread_local! {
-    static LAST_PANIC: RefCell<Option<String>> = RefCell::new(None);
-}
-
-/// Install a panic hook that records `file:line: message` per thread and
-/// prints nothing (panics of the code under test are *observations*).
-pub fn install_panic_hook() {
-    let default = std::panic::take_hook();
-    std::panic::set_hook(Box::new(move |info| {
-        let loc = info.location().map(|l| format!("{}:{}", l.file(), l.line())).unwrap_or_else(|| "?".into());
-        let msg = if let Some(s) = info.payload().downcast_ref::<&str>() {
-            s.to_string()
-        } else if let Some(s) = info.payload().downcast_ref::<String>() {
-            s.clone()
-        } else {
-            "<non-string panic>".to_string()
-        };
-        let harness = std::env::var("VERIF_SHOW_PANICS").is_ok() || (!loc.contains("zvt") && !loc.contains("/rustc/") && !loc.contains("chrono") && !loc.contains("hex") && !loc.contains("yore"));
-        LAST_PANIC.with(|p| *p.borrow_mut() = Some(format!("{loc}: {msg}")));
-        if harness {
-            default(info);
-        }
-    }));
-}
-
-/// Run `f`, converting a panic into `Err(file:line: message)`.
-pub fn guarded<T>(f: impl FnOnce() -> T) -> Result<T, String> {
-    LAST_PANIC.with(|p| *p.borrow_mut() = None);
-    match std::panic::catch_unwind(std::panic::AssertUnwindSafe(f)) {
-        Ok(v) => Ok(v),
-        Err(_) => Err(LAST_PANIC.with(|p| p.borrow_mut().take()).unwrap_or_else(|| "?: panic".into())),
-    }
-}
-
 /// Decode only (no re-encoding of the result): used where the input is not a canonical encoding.
 pub fn decode_type(key: &str, bytes: &[u8]) -> Outcome {
     match guarded(|| decode_type_raw(key, bytes)) {
@@ -247,14 +192,3 @@ pub fn run_type(key: &str, bytes: &[u8]) -> Outcome {
     }
 }
 
-/// Normalise a panic location: keep the path from the crate directory on, strip numbers from the message.
-pub fn panic_signature(p: &str) -> String {
-    let (loc, msg) = p.split_once(": ").unwrap_or((p, ""));
-    let file = loc.rsplit_once(':').map(|x| x.0).unwrap_or(loc);
-    let short = ["zvt_builder/", "zvt_derive/", "zvt_feig_terminal/", "zvt/"]
-        .iter()
-        .filter_map(|k| file.find(k).map(|i| &file[i..]))
-        .next()
-        .unwrap_or_else(|| file.rsplit('/').next().unwrap_or(file));
-    format!("panic:{}:{}", short, refcodec::evidence::strip_numbers(msg))
-}
